@@ -19,11 +19,12 @@ Lemma C15_all :
   (* optimize() stores only to vertex poses, the fixed flag of vertices, private caches of the graph and fresh objects *)
   forallb allowed_optimize (closure effects_table FUEL (direct effects_table "Graph.optimize")) = true /\
   (* non-vacuity: bodies that normalise a measurement in an export, write into self in +=, store to a pose from a
-     helper reached through a call, or store to an information matrix during optimize are rejected *)
+     helper reached through a call, store to an information matrix during optimize, or set the fixed flag of a vertex other than the first one during optimize are rejected *)
   (query_pure [("X.to_g2o", [ECallMut "self.estimate" "normalize"])] "X.to_g2o" = false /\
    pose_op_pure [("P.__iadd__", [EWriteInto "self"])] "P.__iadd__" = false /\
    query_pure [("G.calc_chi2", [ECall "helper"]); ("E.helper", [EWriteAttr "self.vertices[*]" "pose"])] "G.calc_chi2" = false /\
-   forallb allowed_optimize [EWriteAttr "self._edges[*]" "information"] = false).
+   forallb allowed_optimize [EWriteAttr "self._edges[*]" "information"] = false /\
+   forallb allowed_optimize [EWriteAttr "self._vertices[*]" "fixed"] = false).
 Proof.
   destruct frame_queries as [D1 F1]. destruct frame_numjac as [D2 F2]. destruct frame_pose_ops as [D3 F3].
   repeat match goal with |- _ /\ _ => split end.
@@ -35,6 +36,7 @@ Proof.
     + unfold all_defined in D3. rewrite forallb_forall in D3. apply D3; auto.
     + rewrite forallb_forall in F3. apply F3; auto.
   - exact frame_optimize.
+  - apply rejects_normalizing_export.
   - apply rejects_normalizing_export.
   - apply rejects_normalizing_export.
   - apply rejects_normalizing_export.
